@@ -64,6 +64,17 @@ def run(ctx):
         ],
     )
 
+    def _sec_inputmut():
+        # emit -> parse is quantified over interfaces; the interface description handed to one emitter is the one the
+        # next emitter (another format of the same description) is handed: no emitter of the four formats rewrites it
+        ents = []
+        for q in ("cdd.class_.emit.class_", "cdd.function.emit.function", "cdd.argparse_function.emit.argparse_function"):
+            f_ = index.func(q)
+            ents.append((f_, f_.params[0]))
+        c10.inputmut_rule(ctx, "C02.inputmut", ents, "the next emission from the same object (another format, or the same one again) starts from a different interface")
+
+    ctx.section(_sec_inputmut)
+
 
 def _hashable(ctx, index, rule="C02.hashable"):
     """
